@@ -674,8 +674,9 @@ def _make_eq(cls: t.Type[PaneBase], fields: t.Sequence[Field]):
         # check if classes are the same (modulo type variables)
         if _unparametrized(self.__class__) != _unparametrized(other.__class__):
             return False
+        # (like tuples of the fields: identical values are equal, also ones which aren't equal to themselves, like NaN)
         return all(
-            getattr(self, field.name) == getattr(other, field.name)
+            (a := getattr(self, field.name)) is (b := getattr(other, field.name)) or a == b
             for field in fields if field.compare
         )
 
@@ -705,7 +706,7 @@ def _make_ord(cls: t.Type[PaneBase], fields: t.Sequence[Field]):
             if not f.compare:
                 continue
             (a, b) = (getattr(self, f.name), getattr(other, f.name))
-            if a == b:
+            if a is b or a == b:
                 continue
             return bool(op(a, b))
         return if_equal
